@@ -18,7 +18,7 @@ TECHNIQUE = 'property-based testing: generated directory trees materialised on d
 LEVEL_TEXT = 'exploration: generated directory specs (sort-sensitive names, empty folders, zero-byte files, equal names in several folders, generated mtimes)'
 RULE = (
     "case = (directory spec: nesting <= 4, empty folders, names from a pool with upper/lower case, digits, dots, "
-    "dashes, spaces, non-ASCII letters (also not NFC-normalised, and one name whose bytes are not valid UTF-8), hard links (a second name for an existing file), the same name in several folders, file sizes 0..5000, generated mtimes; "
+    "dashes, spaces, non-ASCII letters (also not NFC-normalised, and one name whose bytes are not valid UTF-8), hard links (a second name for an existing file), named pipes and dangling symlinks (no nodes), the same name in several folders, file sizes 0..5000, generated mtimes; "
     "sort on/off), materialised in a per-case temporary directory. Oracle: spec and tree are walked together (name "
     "sets, is_dir, size == os.stat().st_size, mdate == os.stat().st_mtime, with sort: files by code-point name then "
     "directories by name); then save -> FileSystemTree.load must preserve class, names, flags, sizes, mdates and "
@@ -61,6 +61,8 @@ def stat_map(root):
     for dirpath, _dirs, files in os.walk(root):
         for f in files:
             full = os.path.join(dirpath, f)
+            if not os.path.isfile(full):
+                continue  # named pipe / dangling symlink
             st_ = os.stat(full)
             out[full] = (st_.st_size, st_.st_mtime)
     return out
@@ -159,6 +161,29 @@ def run(case, rec):
         root = os.path.join(tmp, "root")
         os.mkdir(root)
         materialise(spec, root)
+        if case.get("specials"):
+            # directory members that are neither a file nor a directory (a named pipe, a symlink that points nowhere):
+            # they are no nodes of the tree, with sorting on or off
+            folders = []
+
+            def collect_(sp, path):
+                folders.append((sp, path))
+                for d in sp["dirs"]:
+                    collect_(d, os.path.join(path, d["name"]))
+
+            collect_(spec, root)
+            for fi, kind_, name in case["specials"]:
+                sp, folder = folders[fi % len(folders)]
+                if any(x[0] == name for x in sp["files"]) or any(d["name"] == name for d in sp["dirs"]):
+                    continue
+                pth = os.path.join(folder, name)
+                if os.path.lexists(pth):
+                    continue
+                if kind_ == "fifo":
+                    os.mkfifo(pth)
+                else:
+                    os.symlink("no-such-target-" + name, pth)
+            rec.cls("special-directory-members")
         if case.get("links") and not case.get("rescan"):
             if add_hard_links(spec, root, case["links"]):
                 rec.cls("hard-links")
@@ -280,6 +305,8 @@ def hyp_cases(draw, tier):
         case["save_stream_ascii"] = True
     if draw(st.sampled_from([0, 0, 1])):
         case["links"] = draw(st.lists(st.tuples(st.integers(0, 20), st.integers(0, 10), st.sampled_from(["link1", "Zlink", "a.lnk"])).map(list), min_size=1, max_size=3))
+    if draw(st.sampled_from([0, 0, 1])):
+        case["specials"] = draw(st.lists(st.tuples(st.integers(0, 10), st.sampled_from(["fifo", "dangling"]), st.sampled_from(["pipe0", "Zz.sock", "a.lnk2"])).map(list), min_size=1, max_size=3))
     if draw(st.sampled_from([0, 1])):
         case["rescan"] = True
         if draw(st.sampled_from([0, 1])):
